@@ -39,3 +39,32 @@ Example C13_ex2 : ctor KRat 22 7 6 = RNum 1 [3; 1; 4; 2; 8; 5] false.
 Proof. vm_compute. reflexivity. Qed.
 Example C13_ex3 : ctor KRat 3 70000 4 = RNum (-4) [4; 2; 8; 5] false.
 Proof. vm_compute. reflexivity. Qed.
+
+(* ---- Part 2: NewNumberForTesting / NewFiniteNumber and NewNumber(g) ---- *)
+Require Import Views HistModel HistProof.
+
+(* NewNumberForTesting(fixed, rep, e): zero number iff both lists are empty; error iff some value is outside
+   0..9 or the first digit would be 0; otherwise digits fixed ++ rep^omega (digit_at), exponent e, finite type
+   in v3 exactly when rep = [] (base_of) *)
+Theorem C13_test_status : forall fixed rep,
+  (test_number_status fixed rep = 1 <-> fixed = [] /\ rep = []) /\
+  (test_number_status fixed rep = 2 <->
+     (fixed ++ rep <> [] /\ (Exists (fun x => in_range x = false) (fixed ++ rep) \/ exists r, fixed ++ rep = 0 :: r))).
+Proof. exact test_number_status_spec. Qed.
+Print Assumptions C13_test_status.
+
+(* NewNumber(g): exactly the longest prefix of g's stream whose values are all within 0..9 *)
+Theorem C13_gen_prefix : forall raw rep,
+  let d := valid_prefix raw rep in
+  Forall (fun x => in_range x = true) (d_fixed d ++ d_rep d) /\
+  ((d = mkD raw rep /\ Forall (fun x => in_range x = true) (raw ++ rep))
+   \/ (d_rep d = [] /\ exists x r, (raw ++ rep) = d_fixed d ++ x :: r /\ in_range x = false)).
+Proof. exact valid_prefix_spec. Qed.
+Print Assumptions C13_gen_prefix.
+
+Example C13_gen_example :
+  run_history 3 1 [1; 2; 3; 263; 4; 5] [] 2 [HWS 0 0; HRUN 0 0 10; HAT 0 3]
+  = [2; 0; 0; 1; 2; 0;  3; 0; 1; 1; 2; 2; 3;  -1].
+Proof. vm_compute. reflexivity. Qed.
+Example C13_gen_zero : run_history 3 1 [0; 5] [] 2 [HWS 0 0] = [0; 1; 1; 1; 0; 1].
+Proof. vm_compute. reflexivity. Qed.
